@@ -365,6 +365,10 @@ def make_policy(rec):
         return sop.BBStepSize()
     if kind == "adaptiveBB" and rec.get("real", False):
         return sop.AdaptiveBBStepSize(kappa=rec["kappa"])
+    if kind == "lineSearch" and rec.get("real", False):
+        return sop.LineSearchStepSize(gamma_u=rec.get("gamma_u", 1.2))
+    if kind == "robust" and rec.get("real", False):
+        return sop.RobustLineSearchStepSize(gamma_d=rec.get("gamma_d", 0.9), gamma_u=rec.get("gamma_u", 2.0))
     base = {"base": sop.PGMStepSize, "bb": sop.BBStepSize, "adaptiveBB": sop.AdaptiveBBStepSize,
             "lineSearch": sop.LineSearchStepSize, "robust": sop.RobustLineSearchStepSize}[kind]
     a, b, c, zc, zd = rec["a"], rec["b"], rec["c"], rec["zc"], rec["zd"]
@@ -561,7 +565,10 @@ class Built:
             # after this one and stays alive while this one is stepped (solvers must not share step-size state)
             self.decoy = cls(f=fn_scico(r["f"], xs, cx), g=fn_scico(r["g"], xs, cx), L0=r["decoy_L0"],
                              x0=unflat(r["x0"], xs, cx), maxiter=1)
-        if real_bb(r):
+        if r["pol"].get("real", False) is True and r["pol"]["kind"] in ("lineSearch", "robust"):
+            # the library's line searches (property C16) have no counterpart in this engine's model: real side only (C03)
+            self.p = None
+        elif real_bb(r):
             # the model runs its own transcription of BBStepSize / AdaptiveBBStepSize; their memory is part of the state
             self.p = {"f": fn_model(r["f"], xs, cx), "g": fn_model(r["g"], xs, cx), "kappa": f2b(r["pol"].get("kappa", 0.5))}
             self.model_alg = r["alg"] + ("-bb" if r["pol"]["kind"] == "bb" else "-abb")
@@ -851,9 +858,11 @@ def _maybe(rng, v, p_none=0.3):
 def _gen_admm(rng, cplx, edge):
     xs = gen_xshape(rng)
     N = int(rng.integers(1, 4))
-    solver = _pick(rng, ["linear", "matrix", "matrix", "linear-jax", "circ"])
+    solver = _pick(rng, ["linear", "matrix", "matrix", "linear-jax", "circ", "generic"])
     if is_block(xs) or (len(xs) == 2 and solver != "circ"):
         solver = "linear"
+    if solver == "generic":
+        return _gen_admm_generic(rng, xs, cplx, edge)
     Cs = []
     # MatrixSubproblemSolver: all-MatrixOperator, all-diagonal (Identity / ScaledIdentity / Diagonal) and - legal since
     # 35adc7f - MIXED diagonal / matrix constraint lists (f=None and a Diagonal f.A work since de41369)
@@ -914,6 +923,19 @@ def _gen_admm(rng, cplx, edge):
          "rho": [_pick(rng, [0.5, 1.0, 2.0, 0.25, 4.0]) for _ in range(N)], "alpha": alpha, "solver": solver,
          "x0": _maybe(rng, rand_value(rng, xs, cplx), 0.2)}
     return r
+
+
+def _gen_admm_generic(rng, xs, cplx, edge):
+    """ADMM with the default GenericSubproblemSolver (numerical minimisation of the x-sub-problem), including the empty
+    constraint list N = 0, where step() is just the minimisation of f"""
+    N = int(rng.integers(0, 3))
+    Cs = [gen_op(rng, xs, cplx, False, ["id", "mat", "fd", "sid", "diag"]) for _ in range(N)]
+    f = {"k": "sqloss", "s": _pick(rng, [0.5, 1.0, 2.0]), "A": None, "yshape": list(xs), "y": rand_value(rng, xs, cplx)}
+    gs = [gen_fn(rng, op_dense(c, xs)[1], cplx) for c in Cs]
+    alpha = _pick(rng, [1.0, 1.5, 0.5]) if not edge else _pick(rng, [1.0, 2.0, 0.0])
+    return {"alg": "admm", "cplx": cplx, "xshape": xs, "C": Cs, "g": gs, "f": f,
+            "rho": [_pick(rng, [0.5, 1.0, 2.0]) for _ in range(N)], "alpha": alpha, "solver": "generic",
+            "x0": rand_value(rng, xs, cplx)}
 
 
 def _opnorm2(rec, sh):
